@@ -649,6 +649,10 @@ func runC15(c *Ctx) error {
 		fmt.Printf("replay: %d failures\n", len(c.Rep.Failures))
 		return nil
 	}
+	// a failing federated sub-query next to a slow one
+	for k := 0; k < c.N(2, 6); k++ {
+		c15Sibling(c)
+	}
 	// cancellation first: few, slow cases
 	for _, target := range []string{"http", "federation"} {
 		for _, when := range []string{"none", "before", "during", "after"} {
@@ -672,6 +676,8 @@ func runC15(c *Ctx) error {
 		q := genXQuery(c.Rng, 3+c.Rng.Intn(2), 0, 0)
 		c15Cost(c, m, c15CostCase{Kind: "random", Query: q.Text}, q.Vars)
 	}
+	// totality: arguments
+	c15Args(c, c.N(1500, 40000))
 	// totality
 	g := &xGen{r: c.Rng}
 	root := g.node("Q", 2)
